@@ -77,6 +77,23 @@ class SR:
                 pass
         return tuple(path)
 
+    def via_ref(self, st, place):
+        """self field path of (*r).f.g when the local r holds a tracked reference to self state (`let s = &mut self.scoring;
+        s.xclip_prefix = ..`), else None"""
+        pj = place.get('pj', [])
+        if place['l'] == self.self_local or not pj or pj[0] != '*':
+            return None
+        v = st.get(('L', place['l']), TOP)
+        if v[0] not in ('mutref', 'ref'):
+            return None
+        path = list(v[1])
+        for el in pj[1:]:
+            if isinstance(el, dict) and 'f' in el:
+                path.append(el['n'])
+            else:
+                return None
+        return tuple(path)
+
     def read_field(self, st, path):
         best = None
         for k, v in st.items():
@@ -93,6 +110,8 @@ class SR:
 
     def read_place(self, st, place):
         sp = self.self_path(place)
+        if sp is None:
+            sp = self.via_ref(st, place)
         if sp is not None:
             return self.read_field(st, sp)
         pj = place.get('pj', [])
@@ -129,8 +148,17 @@ class SR:
             return self.operand(st, r['o'])
         if k == 'agg' and r['ak'] == 'array':
             return ('arr', tuple(self.operand(st, o) for o in r['ops']))
+        if k == 'repeat':
+            try:
+                n = int(r.get('n'))
+            except (TypeError, ValueError):
+                n = None
+            if n is not None and 0 < n <= 16:
+                return ('arr', tuple(self.operand(st, r['o']) for _ in range(n)))
         if k == 'ref':
             sp = self.self_path(r['p'])
+            if sp is None:
+                sp = self.via_ref(st, r['p'])
             if sp is not None:
                 return ('mutref' if r['bk'] == 'mut' else 'ref', sp)
             pl = r['p']
@@ -155,6 +183,10 @@ class SR:
 
     def write_place(self, st, place, val):
         sp = self.self_path(place)
+        if sp is None:
+            vr = self.via_ref(st, place)
+            if vr is not None and st.get(('L', place['l']), TOP)[0] == 'mutref':
+                sp = vr
         if sp is not None:
             self.stored.add(sp)
             for k in list(st):
@@ -204,6 +236,8 @@ class SR:
         self.at_call.append((bb, info['fn'] if info else None, dict(st)))
         if callee is not None and self.try_inline(st, t, callee):
             return
+        if info is not None and self.std_mem(st, t, info['fn']):
+            return
         for ai, a in enumerate(t['args']):
             v = self.operand(st, a)
             if v[0] == 'mutref':
@@ -234,6 +268,40 @@ class SR:
                                         if kk[0] == 'F':
                                             st[kk] = TOP
         self.write_place(st, t['dest'], TOP)
+
+    def std_mem(self, st, t, fn):
+        """std::mem::replace(&mut self.f, v) / take(&mut self.f) / swap(&mut self.f, &mut self.g) on tracked self fields:
+        exactly the documented value movement (old value out, new value in)"""
+        if fn not in ('std::mem::replace', 'core::mem::replace', 'std::mem::take', 'core::mem::take', 'std::mem::swap', 'core::mem::swap'):
+            return False
+        vals = [self.operand(st, a) for a in t['args']]
+        if not vals or vals[0][0] != 'mutref' or '[]' in vals[0][1] or '*' in vals[0][1]:
+            return False
+        name = fn.rsplit('::', 1)[-1]
+        old = self.read_field(st, vals[0][1])
+        if name == 'replace' and len(vals) == 2 and vals[1][0] not in ('mutref', 'ref'):
+            self.write_field(st, vals[0][1], vals[1])
+            self.write_place(st, t['dest'], old)
+            return True
+        if name == 'take' and len(vals) == 1:
+            self.write_field(st, vals[0][1], TOP)
+            self.write_place(st, t['dest'], old)
+            return True
+        if name == 'swap' and len(vals) == 2 and vals[1][0] == 'mutref' and '[]' not in vals[1][1] and '*' not in vals[1][1] \
+                and not path_related(vals[0][1], vals[1][1]):
+            other = self.read_field(st, vals[1][1])
+            self.write_field(st, vals[0][1], other)
+            self.write_field(st, vals[1][1], old)
+            self.write_place(st, t['dest'], TOP)
+            return True
+        return False
+
+    def write_field(self, st, sp, val):
+        self.stored.add(sp)
+        for k in list(st):
+            if k[0] == 'F' and k[1] != sp and path_related(k[1], sp):
+                st[k] = TOP
+        st[('F', sp)] = val
 
     def try_inline(self, st, t, callee):
         """analyse a small loop-free callee in place; returns False when the call must be handled conservatively"""
